@@ -66,3 +66,80 @@ Theorem C05_reader : forall items,
   forallb item_ok items = true -> parse_attrs (fmt_items items) = Some (decode items).
 Proof. exact parse_attrs_items. Qed.
 Print Assumptions C05_reader.
+
+(* ---------------------------------------------------------------- source level (all attribute source lists) *)
+From Coq Require Import Permutation.
+(* C05_spec: for every list of attribute sources in the domain the model renders without panic, and reading the
+   rendered text back (the judge's reader) gives exactly the specification: names in first-occurrence order, each
+   once; false/null/undefined omitted; true -> name="name"; strings and numbers -> their text (escaped so that the
+   reader returns the original); all class sources merged in source order, false/null/empty entries dropped, joined
+   by one space, omitted when empty; spread objects in the object's own / sorted order *)
+Theorem C05_spec : forall srcs,
+  dom_C05 srcs = true ->
+  exists text, model_attrs srcs = Some (Some text) /\ read_attrs text = Some (attr_spec srcs).
+Proof. exact spec_holds_dom. Qed.
+Print Assumptions C05_spec.
+
+(* the same with the two parts of the domain visible: every source well-formed, and no class entry repeating an
+   earlier one verbatim (such an entry is dropped by __attrs) *)
+Theorem C05_spec_partial : forall srcs,
+  forallb src_ok srcs = true -> tmp_nodupb (class_recs (lower srcs)) = true ->
+  exists text, model_attrs srcs = Some (Some text) /\ read_attrs text = Some (attr_spec srcs).
+Proof. exact spec_partial. Qed.
+Print Assumptions C05_spec_partial.
+
+(* F-C05-d: without the restriction of unescaped attributes (name!=value) to string literals the statement is false *)
+Theorem C05_spec_refuted : exists srcs,
+  forallb src_ok_d srcs = true /\ tmp_nodupb (class_recs (lower srcs)) = true /\
+  ~ (exists text, model_attrs srcs = Some (Some text) /\ read_attrs text = Some (attr_spec srcs)).
+Proof. exact spec_refuted_unescaped. Qed.
+Print Assumptions C05_spec_refuted.
+
+(* without the second hypothesis it is false as well: .a.a renders class="a" *)
+Theorem C05_spec_dup_class_refuted : exists srcs,
+  forallb src_ok srcs = true /\ tmp_nodupb (class_recs (lower srcs)) = false /\
+  ~ (exists text, model_attrs srcs = Some (Some text) /\ read_attrs text = Some (attr_spec srcs)).
+Proof. exact spec_refuted_dup_class. Qed.
+Print Assumptions C05_spec_dup_class_refuted.
+
+(* C05_class_merge: the class text __attrs builds, in closed form: the pieces of the entries (a false entry and an
+   empty text count as the empty piece) joined by one space with empty pieces dropped ... *)
+Theorem C05_class_merge : forall vals ps tmp,
+  map cls_piece vals = map Some ps ->
+  attr_value true vals tmp = AText (cat_sp tmp (joinne ps)).
+Proof. exact class_merge. Qed.
+Print Assumptions C05_class_merge.
+
+(* ... and, for the sources of a tag in the domain, the escaped class text of all values given for class *)
+Theorem C05_class_closed : forall srcs,
+  dom_C05 srcs = true ->
+  item_of (B "class") (grp (B "class") (lower srcs)) =
+  match class_text (named (B "class") (flat_map contribs srcs)) with
+  | [] => []
+  | t => [(B "class", escape t)]
+  end.
+Proof. exact class_closed. Qed.
+Print Assumptions C05_class_closed.
+
+(* C05_spread_order: what a tag renders does not depend on the iteration order of the Go map behind
+   &attributes(data) (the map is given as its entries in any order, without explicit key order) *)
+Theorem C05_spread_order : forall pre post items items',
+  Permutation items items' -> NoDup (keys items) ->
+  render_attrs (pre ++ and_attrs (data_map items) ++ post) =
+  render_attrs (pre ++ and_attrs (data_map items') ++ post).
+Proof. exact spread_order. Qed.
+Print Assumptions C05_spread_order.
+
+Theorem C05_spread_order_src : forall pre post es es',
+  Permutation es es' -> NoDup (map fst es) ->
+  model_attrs (pre ++ SrcSpread false es :: post) = model_attrs (pre ++ SrcSpread false es' :: post)
+  /\ attr_spec (pre ++ SrcSpread false es :: post) = attr_spec (pre ++ SrcSpread false es' :: post).
+Proof. exact spread_order_src. Qed.
+Print Assumptions C05_spread_order_src.
+
+(* with Keys() ranging over the Go map (before the repair F-C05-c) the statement is false *)
+Theorem C05_spread_order_unrepaired_refuted : exists items items',
+  Permutation items items' /\ NoDup (keys items) /\
+  render_attrs (and_attrs_iter (data_map items)) <> render_attrs (and_attrs_iter (data_map items')).
+Proof. exact spread_order_unrepaired_refuted. Qed.
+Print Assumptions C05_spread_order_unrepaired_refuted.
